@@ -664,7 +664,7 @@ def classify(prop, rows, exprs_text, what=''):
     for s in exprs_text:
         feats |= text_features(s)
     anomalies = doc_key_anomalies(rows) if rows else set()
-    if what in ('canonical', 'union_comm', 'union_idem', 'union_assoc', 'union_perm', 'union_elements', 'union_count', 'filter_position', 'spec-mismatch'):
+    if what in ('canonical', 'union_comm', 'union_idem', 'union_assoc', 'union_perm', 'union_elements', 'filter_position', 'spec-mismatch'):
         if rows and 'axis:namespace' in feats and 'zero-key:Ns' in anomalies:
             return ('D19', 'namespace axis: namespace nodes have order key 0 (implicit xml) or the key of the inherited declaration')
         if rows and 'zero-key:At' in anomalies and ('axis:attribute' in feats or 'axis:namespace' in feats):
